@@ -130,13 +130,19 @@ func New(
 		Outputs: make([]Output, 0),
 	}
 
-	for _, in := range ins {
+	for i, in := range ins {
+		if err := in.validate(); err != nil {
+			return nil, fmt.Errorf("invalid input %d: %s", i, err)
+		}
 		if err := p.addInput(in.toPartialInput()); err != nil {
 			return nil, err
 		}
 	}
 
-	for _, out := range outs {
+	for i, out := range outs {
+		if err := out.validate(); err != nil {
+			return nil, fmt.Errorf("invalid output args %d: %s", i, err)
+		}
 		if err := p.addOutput(out.toPartialOutput()); err != nil {
 			return nil, err
 		}
